@@ -175,7 +175,9 @@ func runC10(cfg config) {
 	var envOpts []fhirpath.EvaluateOption
 	for _, c := range colls {
 		if c.env {
-			envOpts = append(envOpts, evalopts.EnvVariable(strings.TrimPrefix(c.name, "%"), system.Collection(c.items)))
+			// the library gets its own backing array (the same one for every evaluation of the run); expectations are computed from
+			// c.items, which it never sees: a collection the library damages answers differently from then on
+			envOpts = append(envOpts, evalopts.EnvVariable(strings.TrimPrefix(c.name, "%"), system.Collection(append(make([]any, 0, len(c.items)+3), c.items...))))
 		}
 	}
 	envOpts = append(envOpts, evalopts.EnvVariable("m2", system.Collection{system.Integer(1), system.Integer(2)}))
@@ -469,6 +471,14 @@ func runC10(cfg config) {
 				}
 				return r, true
 			}},
+		}
+		if strings.HasPrefix(c.name, "%") && len(c.items) >= 2 {
+			// a projection that is a strict prefix of the input collection itself, once per item
+			first := c.items[0]
+			projs = append(projs, struct {
+				src string
+				per func(any) ([]any, bool)
+			}{c.name + ".take(1)", func(any) ([]any, bool) { return []any{first}, true }})
 		}
 		for _, pj := range projs {
 			if strings.Contains(pj.src, "family") && c.name != "%mixedc" && c.name != "%protos" && c.name != "Patient.name" {
